@@ -2,7 +2,9 @@ package main
 
 import (
 	"fmt"
+	"go/token"
 	"go/types"
+	"sort"
 	"strings"
 
 	"golang.org/x/tools/go/ssa"
@@ -71,7 +73,7 @@ func (g *gen) call(x *ssa.Call, st State, reach string) string {
 	name, nth := "", 0
 	if anchored {
 		name = calleeName(&x.Call)
-		nth = g.count("gset." + name)
+		nth = g.callOrdinal(x, name)
 		for _, pa := range g.fc.PointAsserts {
 			if strings.TrimPrefix(pa.Callee, "(") != strings.TrimPrefix(name, "(") || pa.Nth != nth {
 				continue
@@ -1034,4 +1036,45 @@ func (g *gen) callInline(x *ssa.Call, callee *ssa.Function, args []Val, st State
 		g.vals[x] = Val{T: g.define(x.Name(), s, t), S: s, GoT: x.Type()}
 	}
 	return and(reach, or(conds...))
+}
+
+
+// callOrdinal numbers the calls of one callee inside the function under verification in SOURCE order (position of
+// the call expression), so that `after call KEY N` / `before call KEY N` mean "the N-th call of KEY as written",
+// whatever order go/ssa laid the blocks out in.
+func (g *gen) callOrdinal(x *ssa.Call, name string) int {
+	if g.callOrd == nil || g.callOrdFn != x.Parent() {
+		g.callOrd = map[*ssa.Call]int{}
+		g.callOrdFn = x.Parent()
+		type site struct {
+			c        *ssa.Call
+			pos      token.Pos
+			blk, idx int
+		}
+		byName := map[string][]site{}
+		fn := x.Parent()
+		for _, b := range fn.Blocks {
+			for i, in := range b.Instrs {
+				if c, ok := in.(*ssa.Call); ok {
+					n := calleeName(&c.Call)
+					byName[n] = append(byName[n], site{c, c.Pos(), b.Index, i})
+				}
+			}
+		}
+		for _, sites := range byName {
+			sort.SliceStable(sites, func(i, j int) bool {
+				if sites[i].pos != sites[j].pos {
+					return sites[i].pos < sites[j].pos
+				}
+				if sites[i].blk != sites[j].blk {
+					return sites[i].blk < sites[j].blk
+				}
+				return sites[i].idx < sites[j].idx
+			})
+			for k, st := range sites {
+				g.callOrd[st.c] = k + 1
+			}
+		}
+	}
+	return g.callOrd[x]
 }
